@@ -100,7 +100,7 @@ pub fn stark_verify<Layout: LayoutTrait>(
     requires
         verify_pre::<Layout>(n_original_columns, n_interaction_columns, public_input, queries@, &commitment, stark_domains), // [C18:stark-verify-after-validation-commit-and-query-generation]
     ensures
-        r.is_ok() <==> verify_ok::<Layout>(n_original_columns, n_interaction_columns, public_input, queries@, &commitment, witness, stark_domains), // [C01,C02,C07:decommitment-phase-ok-iff-all-three-tables-decommit-and-fri-accepts-the-DEEP-values-of-the-decommitted-cells]
+        r.is_ok() <==> verify_ok::<Layout>(n_original_columns, n_interaction_columns, public_input, queries@, &commitment, witness, stark_domains), // [C01,C02,C07,C18:decommitment-phase-ok-iff-all-three-tables-decommit-and-fri-accepts-the-DEEP-values-of-the-decommitted-cells]
 {
     hide(fadd); hide(fsub); hide(fmul); hide(fdiv); hide(table_decommit_ok); hide(fri_verify_ok); hide(deep_row); hide(query_point);
     proof { Layout::lemma_constants(); }
